@@ -428,9 +428,9 @@ func (l pyList) Iter() iter.Seq[pyObject] {
 	}
 }
 
-// Freeze freezes this list for further updates.
+// Freeze returns a frozen copy of this list (and, recursively, of the lists and dicts in it).
 // Note that this is a "soft" freeze; callers holding the original unfrozen
-// reference can still modify it.
+// reference can still modify that, but the changes don't show in the frozen copy.
 func (l pyList) Freeze() pyObject {
 	frozen := make(pyList, len(l))
 	for i, v := range l {
@@ -440,7 +440,7 @@ func (l pyList) Freeze() pyObject {
 			frozen[i] = v
 		}
 	}
-	return pyFrozenList{pyList: l}
+	return pyFrozenList{pyList: frozen}
 }
 
 // Repeat returns a copy of this list, repeated n times
